@@ -39,7 +39,7 @@
  "name": "new_dir_block_4k",
  "props": ["C10"],
  "level": "U",
- "tier": "quick",
+ "tier": "thorough",
  "harness": "h_new_dir_block",
  "enforce": ["ext2fs_new_dir_block"],
  "defines": ["ND_BS=4096"],
